@@ -101,7 +101,14 @@ int vorbis_block_init(vorbis_dsp_state *v, vorbis_block *vb){
 
 void *_vorbis_block_alloc(vorbis_block *vb,long bytes){
   bytes=(bytes+(WORD_ALIGN-1)) & ~(WORD_ALIGN-1);
+#ifdef XIPH_VORBIS_VERIF
+  /* verification builds: every block-local allocation is a heap object of
+     its own, so that a memory checker sees an overrun from one into the
+     next (in the shared arena they are adjacent and an overrun is silent) */
+  if(1){
+#else
   if(bytes+vb->localtop>vb->localalloc){
+#endif
     /* can't just _ogg_realloc... there are outstanding pointers */
     if(vb->localstore){
       struct alloc_chain *link=_ogg_malloc(sizeof(*link));
